@@ -35,3 +35,34 @@ c04_f!(c04_fisher_f_f64, f64);
 //@ funcs: FisherF::<f32>::new
 //@ bounds: every pair of f32 bit patterns
 c04_f!(c04_fisher_f_f32, f32);
+
+// ------------------------------------------------------------------------------------------
+// C03: F = (chi2_m / chi2_n) * (n / m) is >= 0 and never NaN
+// ------------------------------------------------------------------------------------------
+macro_rules! c03_fisher {
+    ($name:ident, $f:ty) => {
+        vproof_zstub! {
+            #[kani::unwind(6)]
+            fn $name() {
+                let mut rng = SymRng::new(4);
+                let m: $f = kani::any();
+                let n: $f = kani::any();
+                let d = match FisherF::<$f>::new(m, n) { Ok(d) => d, Err(_) => return };
+                // both chi-squared draws through the shape > 1 Marsaglia-Tsang sampler (2 words per accepted trial)
+                kani::assume(m > 2.0 && m <= 1e6 && n > 2.0 && n <= 1e6);
+                let x: $f = d.sample(&mut rng);
+                vassert!(x == x, "FisherF sample is NaN");
+                vassert!(x >= 0.0, "FisherF sample is negative");
+                kani::cover!(true, "sample returned");
+            }
+        }
+    };
+}
+//@ id: c03_fisher_f_f32
+//@ prop: C03
+//@ tier: thorough
+//@ cap: 3600
+//@ funcs: FisherF::<f32>::new; FisherF::<f32>::sample; ChiSquared::sample; Gamma::sample
+//@ bounds: m, n in (2, 1e6]; each chi-squared draw accepted within the 4-word budget
+//@ assumes: utils::ziggurat, libm by contract
+c03_fisher!(c03_fisher_f_f32, f32);
